@@ -30,7 +30,9 @@ CONSTANTS MaxP,       \* "edge" cases: the consumer has 0..MaxP parameters
           MaxP2,      \* two-edge cases use consumers with up to MaxP2 parameters
           MaxPB,      \* "bind" cases: callables with 0..MaxPB parameters, defaults absent/5/'d'
           MaxPB0,     \* "bind" cases: additionally callables with up to MaxPB0 parameters, none with a default
-          NVals       \* 2 or 3 distinct values to bind
+          NVals,      \* 2 or 3 distinct values to bind
+          Lean        \* 1 (quick): two-parameter "bind" callables leave the second parameter un-annotated, two-edge cases use a
+                      \* producer annotated absent/int and a consumer with positional-or-keyword parameters only; 0: no such cut
 
 \* ---------------------------------------------------------------- domain
 PNames == <<"a", "b", "c">>
@@ -69,7 +71,8 @@ Rets(args, kw) == IF args = <<>> /\ \A nm \in DOMAIN kw : kw[nm] = NoVal THEN {"
 BindOf(ps) == UNION {UNION {{[kind |-> "bind", params |-> ps, decor |-> NoDecor, ret |-> r, args |-> args, kw |-> kw, split |-> sp]
                                : r \in Rets(args, kw), sp \in (IF k > 0 THEN {FALSE, TRUE} ELSE {FALSE})}
                               : args \in ValSeqs(k), kw \in KwChoices(ps, k)} : k \in 0..NPk(ps)}
-Bind == UNION {BindOf(ps) : ps \in ParamLists(MaxPB, Anns, DefaultVals \cup {NoVal}) \cup ParamLists(MaxPB0, Anns, {NoVal})}
+Bind == UNION {BindOf(ps) : ps \in {q \in ParamLists(MaxPB, Anns, DefaultVals \cup {NoVal}) \cup ParamLists(MaxPB0, Anns, {NoVal})
+                                         : Lean = 0 \/ Len(q) < 2 \/ q[2].ann = ""}}
 \* callables with positional-only / *args / **kwargs parameters, nothing bound: schema and recorded defaults are judged
 Bind3 == {[kind |-> "bind", params |-> ps, decor |-> d, ret |-> "", args |-> <<>>, kw |-> [nm \in {ps[i].name : i \in DOMAIN ps} |-> NoVal], split |-> FALSE]
             : ps \in ParamLists(1, Anns, DefaultVals \cup {NoVal}), d \in Decors \ {NoDecor}}
@@ -82,9 +85,13 @@ SecondShapes == {[st |-> "t1", so |-> "0", dt |-> "t2", mode |-> "kw", into |-> 
                  [st |-> "t1", so |-> "0", dt |-> "nope", mode |-> "kw", into |-> "a"],
                  [st |-> "t1", so |-> "0", dt |-> "t2", mode |-> "ps", into |-> "1"]}
 Edge1 == {[kind |-> "edge", ret |-> r, params |-> ps, decor |-> NoDecor, edges |-> <<e>>]
-            : r \in EAnns, ps \in ParamLists(1, EAnns, {NoVal}) \cup ParamLists(MaxP, Anns, {NoVal}), e \in EdgeShapes}
+            : r \in EAnns, ps \in ParamLists(1, EAnns, {NoVal}), e \in EdgeShapes}
+    \cup {[kind |-> "edge", ret |-> r, params |-> ps, decor |-> NoDecor, edges |-> <<e>>]
+            : r \in Anns, ps \in {q \in ParamLists(MaxP, Anns, {NoVal}) : Len(q) >= 2}, e \in EdgeShapes}
 Edge2 == {[kind |-> "edge", ret |-> r, params |-> ps, decor |-> NoDecor, edges |-> <<e, f>>]
-            : r \in Anns, ps \in ParamLists(MaxP2, Anns, {NoVal}), e \in EdgeShapes, f \in SecondShapes}
+            : r \in (IF Lean = 1 THEN {"", "int"} ELSE Anns),
+              ps \in {q \in ParamLists(MaxP2, Anns, {NoVal}) : Lean = 0 \/ \A i \in DOMAIN q : q[i].kind = "pk"},
+              e \in EdgeShapes, f \in SecondShapes}
 \* consumer with positional-only / *args / **kwargs parameters; one edge into a real parameter, into each of those names,
 \* into a name that exists nowhere, or positional
 DecorShapes == {[st |-> "t1", so |-> "0", dt |-> "t2", mode |-> m[1], into |-> m[2]]
@@ -92,8 +99,24 @@ DecorShapes == {[st |-> "t1", so |-> "0", dt |-> "t2", mode |-> m[1], into |-> m
 Edge3 == {[kind |-> "edge", ret |-> r, params |-> ps, decor |-> d, edges |-> <<e>>]
             : r \in {"", "int"}, ps \in ParamLists(1, Anns, {NoVal}), d \in Decors \ {NoDecor}, e \in DecorShapes}
 
+\* None and the falsy literals of every kind: a binding must be kept whatever its truth value
+FalsyVals == {[t |-> "NoneType", v |-> "None"], [t |-> "int", v |-> "0"], [t |-> "str", v |-> ""], [t |-> "bool", v |-> "False"],
+              [t |-> "list", v |-> "[]"], [t |-> "float", v |-> "0.0"]}
+OneParam == {ps \in ParamLists(1, Anns, DefaultVals \cup {NoVal}) : Len(ps) = 1}
+TwoPk == {ps \in ParamLists(2, {""}, {NoVal}) : Len(ps) = 2 /\ \A i \in 1..2 : ps[i].kind = "pk"}
+NoKw(ps) == [nm \in {ps[i].name : i \in DOMAIN ps} |-> NoVal]
+B4(ps, args, kw, kw2) == [kind |-> "bind", params |-> ps, decor |-> NoDecor, ret |-> "", args |-> args, kw |-> kw, kw2 |-> kw2, split |-> FALSE]
+\* one parameter (every kind / annotation / default): bound positionally to a falsy value; bound by keyword to a falsy value
+\* or 1 and then, in a SECOND with_values call (kw2), re-bound to a falsy value (None included) or left alone; two positional
+\* falsy values
+Bind4 == {B4(ps, <<v>>, NoKw(ps), NoKw(ps)) : ps \in {p \in OneParam : p[1].kind = "pk"}, v \in FalsyVals}
+    \cup {B4(ps, <<>>, [nm \in {ps[1].name} |-> v1], [nm \in {ps[1].name} |-> v2])
+            : ps \in OneParam, v1 \in FalsyVals \cup {[t |-> "int", v |-> "1"]}, v2 \in FalsyVals \cup {NoVal}}
+    \cup {B4(ps, <<v, w>>, NoKw(ps), NoKw(ps)) : ps \in TwoPk, v \in FalsyVals, w \in FalsyVals}
+
+KwJson(kw) == SetToSeq({<<nm, kw[nm]>> : nm \in {x \in DOMAIN kw : kw[x] # NoVal}})
 BindJson(c) == [kind |-> "bind", params |-> c.params, decor |-> c.decor, ret |-> c.ret, args |-> c.args, split |-> c.split,
-                kw |-> SetToSeq({<<nm, c.kw[nm]>> : nm \in {x \in DOMAIN c.kw : c.kw[x] # NoVal}})]
+                kw |-> KwJson(c.kw), kw2 |-> IF "kw2" \in DOMAIN c THEN KwJson(c.kw2) ELSE <<>>]
 
 \* ---------------------------------------------------------------- reference semantics
 SetOf(s) == {s[i] : i \in DOMAIN s}
@@ -176,7 +199,8 @@ PostEdge(c, r) ==
 
 TypeOK(val, ann) == ann = "" \/ val.t = ann
 PostBind(c, r) ==
-  LET given == Pairs(c.kw)
+  LET given2 == Pairs(c.kw2)                                    \* a second with_values call overrides the first
+      given == given2 \cup {p \in Pairs(c.kw) : p[1] \notin {q[1] : q \in given2}}
       givenNames == {p[1] : p \in given}
       wantPs == {<<ToString(i - 1), c.args[i]>> : i \in DOMAIN c.args}
       dfl == Defaults(c.params)
@@ -207,7 +231,8 @@ Post(c, r) == IF c.kind = "bind" THEN PostBind(c, r) ELSE PostEdge(c, r)
 Generate == IF IOEnv.CASES_FILE = "none" THEN TRUE ELSE
             LET b == SetToSeq(Bind)
                   b3 == SetToSeq(Bind3)
-                  s == [i \in 1..Len(b) |-> BindJson(b[i])] \o [i \in 1..Len(b3) |-> BindJson(b3[i])]
+                  b4 == SetToSeq(Bind4)
+                  s == [i \in 1..Len(b) |-> BindJson(b[i])] \o [i \in 1..Len(b3) |-> BindJson(b3[i])] \o [i \in 1..Len(b4) |-> BindJson(b4[i])]
                        \o SetToSeq(Edge1) \o SetToSeq(Edge2) \o SetToSeq(Edge3)
               IN JsonSerialize(IOEnv.CASES_FILE, s)
 Judge ==
